@@ -563,13 +563,14 @@ def sel_L(st, addr):
     """L[addr] with stores at *other freshly allocated addresses* peeled off syntactically (two distinct allocation terms of
     one path denote different addresses); keeps invariants over a list syntactically stable across unrelated allocations"""
     try:
-        addr = z3.simplify(addr)
+        saddr = z3.simplify(addr)      # only to recognise an allocation term; the returned term keeps `addr` as written
         fresh_ids = st.notes.get('fresh', frozenset()) if hasattr(st, 'notes') else frozenset()
         arr = st.L
-        if addr.get_id() in fresh_ids:
+        if saddr.get_id() in fresh_ids:
+            addr = saddr
             while z3.is_app(arr) and arr.decl().kind() == z3.Z3_OP_STORE:
                 idx = z3.simplify(arr.arg(1))
-                if idx.get_id() in fresh_ids and idx.get_id() != addr.get_id():
+                if idx.get_id() in fresh_ids and idx.get_id() != saddr.get_id():
                     arr = arr.arg(0)
                 else:
                     break
